@@ -172,8 +172,41 @@ class ComputeTypeVisitor(Visitor.DefaultVisitor):
                 expr.SetType(expr.GetOperator().GetReturnType())
             elif isinstance(expr, ast.AffixExpression):
                 expr.SetType(expr.children[0].GetType())
+            elif isinstance(expr, ast.ConstructPrimitiveExpression):
+                self._CheckConstructorArguments(expr)
 
         return expr.GetType()
+
+    def _CheckConstructorArguments(self, expr):
+        targetType = expr.GetType()
+        argumentTypes = [a.GetType() for a in expr.GetArguments()]
+        if targetType.IsMatrix():
+            # A matrix is built from its rows
+            valid = len(argumentTypes) == targetType.GetRowCount() and all(
+                t.IsPrimitive()
+                and t.IsVector()
+                and t.GetComponentCount() == targetType.GetColumnCount()
+                for t in argumentTypes
+            )
+        elif targetType.IsVector():
+            # A vector is built from scalars and vectors, flattened in order
+            valid = all(
+                t.IsPrimitive() and (t.IsScalar() or t.IsVector())
+                for t in argumentTypes
+            ) and targetType.GetComponentCount() == sum(
+                t.GetComponentCount() if t.IsVector() else 1
+                for t in argumentTypes
+            )
+        else:
+            # A scalar is converted from one scalar
+            valid = len(argumentTypes) == 1 and (
+                argumentTypes[0].IsPrimitive() and argumentTypes[0].IsScalar()
+            )
+
+        if not valid:
+            Errors.ERROR_INCOMPATIBLE_TYPES.Raise(
+                targetType, ", ".join(str(t) for t in argumentTypes)
+            )
 
     def v_VariableDeclaration(self, decl, ctx):
         assert isinstance(decl, ast.VariableDeclaration)
